@@ -225,9 +225,15 @@ struct Harness
         else
         {
             out.clear();
-            const std::size_t n = f.size();
-            out.reserve(n);
+            std::size_t n = f.size();
             auto* p = f.data();
+            if (n > (std::size_t{1} << 22))
+            {
+                // no run stores spans of this length: the size was read from bytes that hold something else
+                env_violation("C04", "absurd-span-size", "a span reports more than 2^22 objects");
+                n = 0;
+            }
+            out.reserve(n);
             for (std::size_t k = 0; k < n; ++k) out.push_back(Codec<T<I>>::read(p[k]));
             sp.b = reinterpret_cast<std::uintptr_t>(p);
             sp.e = sp.b + n * sizeof(T<I>);
